@@ -11,6 +11,7 @@ from cxx2c import ExtractError
 PROP_UNITS = {
     'C08': ['tt'],
     'C06': ['timectl'],
+    'C02': ['position'],
 }
 
 
@@ -162,6 +163,9 @@ def run_property(prop, tier, seed, workdir, evid_path, t0, only):
     rc = 0
     nviol = 0
     os.makedirs(os.path.join(ROOT, 'replays'), exist_ok=True)
+    import glob
+    for old in glob.glob(os.path.join(ROOT, 'replays', prop + '-*.json')):
+        os.remove(old)
     reported = set()
     for r, f in violations:
         oblig = '%s.%s:%s' % (r['unit'], r['group'], f.get('property'))
